@@ -483,7 +483,24 @@ fn exec_ticker(sc: &Scenario) -> Report {
                     _ => Ok(()),
                 },
                 // calls that have nothing to do with the ticker: it stays as it is
-                "neutral" => call(|| match op.n0() % 8 {
+                "neutral" => call(|| match op.n0() % 12 {
+                    // (the adaptors move the position like set_position / inc do: no manual tick)
+                    8 => {
+                        use std::io::Seek;
+                        let _ = pb.wrap_read(std::io::Cursor::new(vec![0u8; 64])).seek(std::io::SeekFrom::Start(op.n0() % 60));
+                    }
+                    9 => {
+                        use std::io::Read;
+                        let mut buf = [0u8; 8];
+                        let _ = pb.wrap_read(&[1u8; 32][..]).read(&mut buf);
+                    }
+                    10 => {
+                        use std::io::Write;
+                        let _ = pb.wrap_write(std::io::sink()).write(b"abcd");
+                    }
+                    11 => {
+                        let _ = pb.wrap_iter(0..5).nth(2);
+                    }
                     0 => pb.set_length(100 + op.n0()),
                     1 => pb.set_prefix("p"),
                     2 => pb.println("log"),
@@ -643,7 +660,7 @@ impl Check for C08 {
         "C08"
     }
     fn rule_text(&self) -> String {
-        "race: 2..3 simulated user threads each run 2..6 calls of update/enable_steady_tick/disable_steady_tick/tick/inc/set_message/println/suspend/finish/is_finished/getters/clone+drop/reset/set_length/mp.println/mp.suspend/mp.clear/mp.remove/mp.add (re-attach)/finish through a clone dropped on the same thread/set_style/message+prefix+elapsed+duration+per_sec+style getters/downgrade+upgrade/wrap_iter completion/Debug formatting/mp.insert+insert_from_back+add of a fresh bar/insert_before+insert_after relative to a permanent member that other threads tick and update/mp.set_alignment/set_tab_width/set_prefix/set_position/dec/inc_length/dec_length/unset_length/force_draw/reset_eta/reset_elapsed/finish_using_style/the with_message, with_prefix, with_position, with_tab_width, with_style builders through a clone/wrap_write/is_hidden of the bar and of the MultiProgress/MultiProgress::set_draw_target (hidden, and its terminal back)/advance/sleep on 1..3 shared bars (standalone or in a MultiProgress, hidden or on a simulated terminal), tick intervals 1 ms..10 h, under a seeded random / sticky / PCT scheduler with spurious condvar wake-ups and clock jitter; every lock, condvar, spawn, join (and optionally atomic) is a scheduling point. Oracles: no deadlock (no runnable thread and no pending timer; wait-for graph reported), all threads terminate once all handles are gone, disable/replace/drop return without the virtual clock having to move and leave no ticker thread behind. ticker: one user thread with phases enable / sleep k intervals / manual tick / inc / set_message / finish / disable / calls that do not concern the ticker (set_length, set_prefix, println, reset_eta, set_tab_width, suspend, mp.println, getters) / for a bar that is the member of a MultiProgress (one run in four) remove and add or insert again: the ticker paints >= k-1 frames while idle, manual ticks do not advance the spinner, consecutive ticker frames advance it by one, no ticker frames after stop, the ticker thread is gone after finish (within two intervals), disable and drop. Non-trivial: race = >= 2 threads with operations; ticker = >= 2 phases. Distinct = distinct scenario hash; distinct interleavings reported separately.".into()
+        "race: 2..3 simulated user threads each run 2..6 calls of update/enable_steady_tick/disable_steady_tick/tick/inc/set_message/println/suspend/finish/is_finished/getters/clone+drop/reset/set_length/mp.println/mp.suspend/mp.clear/mp.remove/mp.add (re-attach)/finish through a clone dropped on the same thread/set_style/message+prefix+elapsed+duration+per_sec+style getters/downgrade+upgrade/wrap_iter completion/Debug formatting/mp.insert+insert_from_back+add of a fresh bar/insert_before+insert_after relative to a permanent member that other threads tick and update/mp.set_alignment/set_tab_width/set_prefix/set_position/dec/inc_length/dec_length/unset_length/force_draw/reset_eta/reset_elapsed/finish_using_style/the with_message, with_prefix, with_position, with_tab_width, with_style builders through a clone/wrap_write/is_hidden of the bar and of the MultiProgress/MultiProgress::set_draw_target (hidden, and its terminal back)/advance/sleep on 1..3 shared bars (standalone or in a MultiProgress, hidden or on a simulated terminal), tick intervals 1 ms..10 h, under a seeded random / sticky / PCT scheduler with spurious condvar wake-ups and clock jitter, read-write locks that prefer waiting writers in half of the runs; every lock, condvar, spawn, join (and optionally atomic) is a scheduling point. Oracles: no deadlock (no runnable thread and no pending timer; wait-for graph reported), all threads terminate once all handles are gone, disable/replace/drop return without the virtual clock having to move and leave no ticker thread behind. ticker: one user thread with phases enable / sleep k intervals / manual tick / inc / set_message / finish / disable / calls that do not concern the ticker (set_length, set_prefix, println, reset_eta, set_tab_width, suspend, mp.println, getters, a seek / read / write / a few items through the adaptors) / for a bar that is the member of a MultiProgress (one run in four) remove and add or insert again: the ticker paints >= k-1 frames while idle, manual ticks do not advance the spinner, consecutive ticker frames advance it by one, no ticker frames after stop, the ticker thread is gone after finish (within two intervals), disable and drop. Non-trivial: race = >= 2 threads with operations; ticker = >= 2 phases. Distinct = distinct scenario hash; distinct interleavings reported separately.".into()
     }
     fn assumptions(&self) -> Vec<String> {
         vec![
@@ -739,6 +756,9 @@ impl Check for C08 {
         sc.set("on_finish", rng.below(5));
         sc.set("atomics_yield", rng.chance(1, 4) as u64);
         sc.set("panic_owner", rng.chance(1, 8) as u64);
+        // (in half of the runs read-write locks prefer writers, like std's do on Linux: a reader
+        // waits while a writer is waiting, so a second read() under a read guard can block for good)
+        sc.set("rw_pref", rng.chance(1, 2) as u64);
         gen_sched_cfg(&mut sc, rng, 40 * nt as u64);
         let mut threads = vec![];
         for ti in 0..nt {
@@ -796,6 +816,6 @@ impl Check for C08 {
         }
     }
     fn shrink_cfg(&self) -> Vec<(&'static str, u64)> {
-        vec![("handle_mask", 0), ("slow_flush_ns", 0), ("panic_owner", 0), ("start_hidden", 0), ("in_mp", 0), ("use_mp", 0), ("visible", 0), ("now_jitter_ns", 0), ("spurious_pm", 0), ("n_bars", 1), ("atomics_yield", 0)]
+        vec![("handle_mask", 0), ("slow_flush_ns", 0), ("panic_owner", 0), ("start_hidden", 0), ("in_mp", 0), ("use_mp", 0), ("visible", 0), ("now_jitter_ns", 0), ("spurious_pm", 0), ("n_bars", 1), ("atomics_yield", 0), ("rw_pref", 0)]
     }
 }
